@@ -170,6 +170,18 @@ def cat_lemma(k):
             % (k, ', '.join('%s: Seq<u8>' % e for e in es), lnest(['o'] + es), rnest(es), lnest(['o'] + es), rnest(es)))
 
 
+# the proof of a derived decoder needs the field types' *contracts* only: hiding the definitions behind the collection and
+# compact spec functions keeps z3 from unfolding them (rlimit 400 -> 5 on R6E of family seed 6; compact u128 fields)
+def hide_dec(fields):
+    """hide only what the decoder can reach (hiding an unreachable function trips Verus: undeclared fuel variable)"""
+    h = []
+    if any('Vec<' in f['ty'] for f in fields):
+        h += ['seq_decode_vec::vec_accepts', 'seq_decode_vec::vec_need_depth', 'seq_decode_vec::vec_need_mem', 'seq_spec::dec_seq']
+    if any(is_compact(f) or f.get('attr') == 'encoded_as' for f in fields):
+        h += ['spec::compact_accepts', 'spec::compact', 'spec::nbytes', 'spec::big_len']
+    return ' '.join('hide(%s);' % x for x in h)
+
+
 def dec_hint(k, tag=None):
     """reassociation needed by the decode postcondition.  For enums the first operand is the variant's tag literal:
     a pattern that generic is self-feeding (its right-hand side creates `x + r` terms that match it again whenever x
@@ -269,8 +281,9 @@ def struct_module(d, src, out, props):
             hints.append(dec_hint_struct(ty, ns, vacc))
         if any(is_compact(f) for f in ns):
             hints.append('le_lemmas::pow256_values();')
-        if hints:
-            out.append('    //@ at start\n    //@+ proof { %s }' % ' '.join(hints))
+        hd = hide_dec(ns)
+        if hd or hints:
+            out.append('    //@ at start' + ('\n    //@+ ' + hd if hd else '') + (('\n    //@+ proof { %s }' % ' '.join(hints)) if hints else ''))
         out.append('}')
     if 'MaxEncodedLen' in d['derives']:
         mel_module(d, src, out, [(None, ns)], enum=False)
@@ -431,8 +444,8 @@ def enum_module(d, src, out, props):
             hints.append(dec_hint_enum(d, ty, idx))
         # the proof of a derived decoder needs the field types' *contracts* only: hiding the definitions behind the
         # collection types' spec functions keeps z3 from unfolding them (rlimit 400 -> 5 on R6E of family seed 6)
-        hide = 'hide(seq_decode_vec::vec_accepts); hide(seq_decode_vec::vec_need_depth); hide(seq_decode_vec::vec_need_mem); hide(seq_spec::dec_seq); hide(spec::compact_accepts);'
-        out.append('    //@ at start\n    //@+ %s\n    //@+ proof { %s }' % (hide, ' '.join(h if h.endswith(';') or h.endswith('}') else h + ';' for h in hints)))
+        hide = hide_dec([f for v in live for f in v['fields']])
+        out.append('    //@ at start' + ('\n    //@+ ' + hide if hide else '') + '\n    //@+ proof { %s }' % ' '.join(h if h.endswith(';') or h.endswith('}') else h + ';' for h in hints))
         out.append('}')
     if 'MaxEncodedLen' in d['derives']:
         mel_module(d, src, out, [(v, [f for f in v['fields']]) for v in live], enum=True)
